@@ -223,12 +223,43 @@ class TcpConnection():
                 self._stop_threads = True
 
 
+    def get_recv_data_stream(self) -> bytes:
+        """Hands over the complete Diameter messages received so far. An
+        incomplete trailing message stays in the buffer until the rest of it
+        arrives: TCP delivers a byte stream, not message boundaries.
+        """
+        self.lock.acquire()
+
+        stream = self._recv_data_stream
+        index = 0
+        while len(stream) - index >= 4:
+            length = int.from_bytes(stream[index+1:index+4], byteorder="big")
+            if length < 20:
+                #: Not a Diameter header: let the decoder reject the lot.
+                index = len(stream)
+                break
+
+            if index + length > len(stream):
+                break
+
+            index += length
+
+        self._recv_data_stream = stream[index:]
+        self._recv_data_available.clear()
+
+        self.lock.release()
+        return stream[:index]
+
+
     def read(self) -> None:
         self._read()
 
         if self._recv_buffer:
+            self.lock.acquire()
             self._recv_data_stream += copy.copy(self._recv_buffer)
             self._recv_data_available.set()
+            self.lock.release()
+
             self._recv_buffer = b""
 
         tcp_connection.debug(f"[Socket-{self.sock_id}] _recv_buffer has "\
